@@ -27,8 +27,12 @@ LEVEL_TEXT = ('Every file size in {0, 1, c-1, c, c+1, 2c-1, 2c, 2c+1, 3c} for '
               'hashed with every fixed-length algorithm hashlib guarantees and '
               'compared with the digest of the whole content; last_bytes is '
               'asked for n in {0, 1, size-1, size, size+1, 2^40, 2^62}; '
+              'the same for sparse files (holes at start / middle / end); '
               'write_to_tempfile creates 5 files in 0..3 missing directory '
-              'levels; every errno known to the platform is injected into '
+              'levels and is given 8 buffer kinds (item sizes 1..8) x item counts around '
+              '2^16 and 2^17; ensure_tree is run on every path of 1..3 (and 4 with "..") '
+              'components over {new, existing dir, symlink to a dir, dangling symlink, file, '
+              '"..", "."} against os.makedirs in a twin directory; every errno known to the platform is injected into '
               'os.makedirs (three path states) and into the remove callable: '
               'swallowed exactly for EEXIST-on-a-directory resp. ENOENT, else '
               'the same exception object propagates.')
@@ -123,6 +127,190 @@ def _sum_case(vals, acc):
                 return
     finally:
         os.unlink(path)
+
+
+def _sparse_case(vals, acc):
+    """The same whole-file semantics for files whose zeros were never written (holes):
+    how the bytes got there - write() or truncate()/seek() - is not content."""
+    from oslo_utils import fileutils
+    size, layout, chunk, seed = vals
+    data = filler(seed, size, 7)
+    cut1, cut2 = size // 3, (2 * size) // 3
+    if layout == 'hole-at-end':
+        content = data[:cut1] + bytes(size - cut1)
+    elif layout == 'hole-in-middle':
+        content = data[:cut1] + bytes(cut2 - cut1) + data[cut2:]
+    elif layout == 'hole-at-start':
+        content = bytes(cut2) + data[cut2:]
+    elif layout == 'all-hole':
+        content = bytes(size)
+    else:                                   # 'two-holes'
+        q = size // 5
+        content = data[:q] + bytes(q) + data[2 * q:3 * q] + bytes(size - 3 * q)
+    path = os.path.join(tmpdir(), 'sparse-%s-%d-%d' % (layout, size, chunk))
+    with open(path, 'wb') as f:
+        # write only the non-zero runs; everything else is left as a hole
+        i = 0
+        while i < size:
+            if content[i]:
+                j = i
+                while j < size and content[j]:
+                    j += 1
+                f.seek(i)
+                f.write(content[i:j])
+                i = j
+            else:
+                i += 1
+        f.truncate(size)
+    try:
+        acc.nontrivial(repr(vals))
+        with open(path, 'rb') as f:
+            if f.read() != content:
+                return                      # the file system did something else: not our business
+        for alg in ('sha256', 'md5'):
+            acc.counters['checksum_calls'] += 1
+            want = hashlib.new(alg, content).hexdigest()
+            try:
+                got = fileutils.compute_file_checksum(path, read_chunksize=chunk, algorithm=alg)
+            except Exception as e:
+                got = 'raises ' + type(e).__name__
+            if got != want:
+                acc.fail('checksum-sparse-file', {'size': size, 'layout': layout, 'read_chunksize': chunk,
+                                                  'algorithm': alg, 'got': got, 'want': want},
+                         {'sparse': [size, layout, chunk, seed]})
+                return
+        for n in (1, size // 2, size, size + 1):
+            acc.counters['last_bytes_calls'] += 1
+            take = min(n, size)
+            try:
+                got = fileutils.last_bytes(path, n)
+            except BaseException as e:
+                got = 'raises ' + type(e).__name__
+            if got != (content[size - take:], size - take):
+                acc.fail('last_bytes-sparse-file', {'size': size, 'layout': layout, 'num': n,
+                                                    'got': repr(got)[:80]},
+                         {'sparse': [size, layout, chunk, seed]})
+                return
+    finally:
+        os.unlink(path)
+
+
+CONTENT_KINDS = ['bytes', 'bytearray', 'memoryview', 'memoryview-H', 'memoryview-Q', 'array-H', 'array-I',
+                 'array-d']
+
+
+def make_content(kind, items, seed):
+    """-> (object handed to write_to_tempfile, the bytes the file must hold)"""
+    import array
+    isz = {'bytes': 1, 'bytearray': 1, 'memoryview': 1, 'memoryview-H': 2, 'memoryview-Q': 8,
+           'array-H': 2, 'array-I': array.array('I').itemsize, 'array-d': 8}[kind]
+    raw = filler(seed, items * isz, 3)
+    if kind == 'bytes':
+        return raw, raw
+    if kind == 'bytearray':
+        return bytearray(raw), raw
+    if kind == 'memoryview':
+        return memoryview(raw), raw
+    if kind == 'memoryview-H':
+        return memoryview(raw).cast('H'), raw
+    if kind == 'memoryview-Q':
+        return memoryview(raw).cast('Q'), raw
+    a = array.array(kind[-1])
+    a.frombytes(raw)
+    return a, raw
+
+
+def _content_case(vals, acc):
+    from oslo_utils import fileutils
+    kind, items, seed = vals
+    obj, raw = make_content(kind, items, seed)
+    acc.nontrivial(repr((kind, items)))
+    d = os.path.join(tmpdir(), 'content')
+    try:
+        p = fileutils.write_to_tempfile(obj, path=d)
+    except Exception as e:
+        acc.fail('write_to_tempfile-content:%s' % kind, {'content_kind': kind, 'items': items,
+                                                         'got': 'raises ' + type(e).__name__},
+                 {'content': [kind, items, seed]})
+        return
+    try:
+        with open(p, 'rb') as f:
+            got = f.read()
+    finally:
+        os.unlink(p)
+    if got != raw:
+        acc.fail('write_to_tempfile-content:%s' % kind,
+                 {'content_kind': kind, 'items': items, 'bytes_expected': len(raw), 'bytes_in_file': len(got)},
+                 {'content': [kind, items, seed]})
+
+
+PATH_PARTS = ['new', 'dir', 'link', 'dangling', 'file', '..', '.', 'new2']
+
+
+def _make_layout(base):
+    """dir/ (existing, with dir/sub/), elsewhere/target/, link -> elsewhere/target,
+    dangling -> nowhere, file (regular)."""
+    os.makedirs(os.path.join(base, 'dir', 'sub'))
+    os.makedirs(os.path.join(base, 'elsewhere', 'target', 'dir'))
+    os.symlink(os.path.join(base, 'elsewhere', 'target'), os.path.join(base, 'link'))
+    os.symlink(os.path.join(base, 'nowhere'), os.path.join(base, 'dangling'))
+    open(os.path.join(base, 'file'), 'w').close()
+
+
+def _snapshot(base):
+    out = []
+    for root, dirs, files in os.walk(base):
+        rel = os.path.relpath(root, base)
+        for n in sorted(dirs + files):
+            full = os.path.join(root, n)
+            out.append((os.path.normpath(os.path.join(rel, n)),
+                        'link' if os.path.islink(full) else 'dir' if os.path.isdir(full) else 'file'))
+    return sorted(out)
+
+
+def _tree_case(vals, acc):
+    """ensure_tree(path) against os.makedirs semantics ("mkdir -p") in a twin directory:
+    same outcome, same resulting tree, same answer to "is the given path a directory now"
+    (os.makedirs itself reports success for 'dangling-link/.' without creating anything, so
+    "is a directory afterwards" is not demanded outright)."""
+    from oslo_utils import fileutils
+    parts, trailing = vals
+    if parts[0] == '..':
+        return
+    top = tempfile.mkdtemp(prefix='verif-c20p-', dir=tmpdir())
+    try:
+        res = []
+        for twin in ('impl', 'ref'):
+            base = os.path.join(top, twin)
+            os.mkdir(base)
+            _make_layout(base)
+            path = os.path.join(base, *parts) + ('/' if trailing else '')
+            try:
+                if twin == 'impl':
+                    fileutils.ensure_tree(path)
+                else:
+                    try:
+                        os.makedirs(path, 0o777)
+                    except FileExistsError:
+                        if not os.path.isdir(path):
+                            raise
+                out = 'ok'
+            except OSError as e:
+                out = 'OSError:%s' % errno.errorcode.get(e.errno, e.errno)
+            except Exception as e:
+                out = 'raises ' + type(e).__name__
+            res.append((out, os.path.isdir(path), _snapshot(base)))
+        acc.nontrivial(repr(vals))
+        (o1, d1, s1), (o2, d2, s2) = res
+        if o1 != o2 or s1 != s2 or d1 != d2:
+            acc.fail('ensure_tree-path-shape', {'path': '/'.join(parts) + ('/' if trailing else ''),
+                                                'ensure_tree': o1, 'makedirs': o2,
+                                                'is_dir_afterwards': d1,
+                                                'tree_differs': [x for x in s1 if x not in s2][:4] +
+                                                [x for x in s2 if x not in s1][:4]},
+                     {'tree': [list(parts), trailing]})
+    finally:
+        shutil.rmtree(top, ignore_errors=True)
 
 
 def check_tempfile(rep):
@@ -355,6 +543,19 @@ def run(ctx):
         E.run(rep, 'checksum+last_bytes', [[1, 2, 7, 64, 4096, 65536, 'size+1', 'big'], list(range(9)),
                                            [ctx.seed, ctx.seed + 1] if ctx.thorough else [ctx.seed]],
               _sum_case)
+        E.run(rep, 'sparse-files', [[4096, 12288, 65537, 196608, (1 << 20) + 5],
+                                    ['hole-at-end', 'hole-in-middle', 'hole-at-start', 'all-hole', 'two-holes'],
+                                    [4096, 65536, 1000], [ctx.seed]], _sparse_case)
+        from vlib import lits
+        counts = {0, 1, 7, 65535, 65536, 65537, 131073}
+        for v in lits.new('oslo_utils/fileutils.py')['ints']:
+            if 2 <= v <= 1 << 21:
+                counts |= {v - 1, v, v + 1, 2 * v + 1}
+        E.run(rep, 'tempfile-content', [CONTENT_KINDS, sorted(counts), [ctx.seed]], _content_case)
+        import itertools
+        shapes = [t for n in (1, 2, 3, 4) for t in itertools.product(PATH_PARTS, repeat=n)
+                  if n < 4 or ('..' in t and t.count('new') + t.count('new2') >= 1)]
+        E.run(rep, 'ensure_tree-paths', [shapes, [False, True]], _tree_case)
         rep.count('evaluations', rep.counters.get('checksum_calls', 0) +
                   rep.counters.get('last_bytes_calls', 0))
         check_tempfile(rep)
@@ -399,8 +600,36 @@ def replay(payload):
             return {'violates': got != (content[size - take:], size - take), 'got': repr(got)[:100]}
         finally:
             shutil.rmtree(d, ignore_errors=True)
+    if 'sparse' in payload or 'content' in payload or 'tree' in payload:
+        acc = _Acc()
+        try:
+            if 'sparse' in payload:
+                _sparse_case(tuple(payload['sparse']), acc)
+            elif 'content' in payload:
+                _content_case(tuple(payload['content']), acc)
+            else:
+                _tree_case((tuple(payload['tree'][0]), payload['tree'][1]), acc)
+        finally:
+            shutil.rmtree(tmpdir(), ignore_errors=True)
+        return {'violates': bool(acc.fails), 'problems': acc.fails}
     if 'tempfile' in payload:
         check_tempfile(rep)
     else:
         check_errno(rep)
     return {'violates': bool(rep.violations), 'classes': sorted(rep.violations)}
+
+
+class _Acc:
+    def __init__(self):
+        import collections
+        self.fails = []
+        self.counters = collections.Counter()
+
+    def fail(self, cls, summary, payload, sigs=()):
+        self.fails.append({'class': cls, 'summary': summary})
+
+    def count(self, *a):
+        pass
+
+    def nontrivial(self, *a):
+        pass
